@@ -13,7 +13,7 @@ package main
 //   colours      every row of the LIVE css.ShortenColorName / ShortenColorHex and every CSS colour keyword through
 //                css.Minify and svg.Minify, judged by the independent colour table.
 //   spec         the hand-written Lean decoders against html.UnescapeString, x/net/html, encoding/xml.
-//   known        K-C17-1 (marquee), K-C17-2 (xmlns).
+//   known        K-C17-2 (xmlns); fixed K-C17-1 (marquee) and F06 (lightslateblue) as regression inputs.
 //   search       (c.Search) every row that fails its Lean checker (`bad.*`) is turned into a minifier input.
 
 import (
@@ -132,7 +132,11 @@ func c17Ws(s string) string {
 }
 
 // c17XML decodes a document with encoding/xml into "chardata|attr=val|…" (error → ok=false).
-func c17XML(doc string) (string, bool) {
+func c17XML(doc string) (string, bool) { return c17XMLw(doc, false) }
+
+// c17XMLw: with wsNorm, character data is compared modulo collapsing/trimming of white space (the XML minifier
+// collapses white space in character data by design — C06's equivalence; attribute values stay exact).
+func c17XMLw(doc string, wsNorm bool) (string, bool) {
 	d := stdxml.NewDecoder(strings.NewReader(doc))
 	var sb strings.Builder
 	for {
@@ -146,7 +150,11 @@ func c17XML(doc string) (string, bool) {
 		switch v := t.(type) {
 		case stdxml.CharData:
 			sb.WriteString("T:")
-			sb.Write(v)
+			if wsNorm {
+				sb.WriteString(strings.TrimRight(c17Ws(string(v)), " "))
+			} else {
+				sb.Write(v)
+			}
 			sb.WriteByte('|')
 		case stdxml.StartElement:
 			sb.WriteString("<" + v.Name.Local)
@@ -206,11 +214,11 @@ type c17Dump struct {
 	html5  [][2]string // name, "cp cp"
 }
 
-var c17PairTables = []string{"EntitiesHtml", "TextRevHtml", "EntitiesXml", "TextRevXml", "ShortenColorHex", "ShortenColorName",
+var c17PairTables = []string{"EntitiesHtml", "TextRevHtml", "AttrRevHtml", "EntitiesXml", "TextRevXml", "AttrRevXml", "ShortenColorHex", "ShortenColorName",
 	"TagTraits", "AttrTraits", "HashNames.html", "HashNames.css", "HashNames.svg", "Html5Entities", "CssColors"}
 var c17NameTables = []string{"JsMimetypes", "OptionalZeroDimension", "SvgColorAttrs"}
 var c17Classes = []string{"booleanAttrs", "urlAttrs", "rawJustified", "wsInsignificant", "jsMimeTypes", "svgColorAttrs", "lengthUnits", "angleUnits"}
-var c17Bads = []string{"entitiesHtml", "textRevHtml", "textRevHtmlCovers", "entitiesXml", "textRevXml", "colorHex", "colorName", "boolAttrs", "urlAttrs",
+var c17Bads = []string{"entitiesHtml", "textRevHtml", "attrRevHtml", "textRevHtmlCovers", "entitiesXml", "textRevXml", "attrRevXml", "colorHex", "colorName", "boolAttrs", "urlAttrs",
 	"rawTags", "blockTags", "jsMimetypes", "zeroUnits", "svgColorAttrs", "hashNames.html", "hashNames.css", "hashNames.svg"}
 
 func c17Load() (*c17Dump, error) {
@@ -343,6 +351,11 @@ func c17Translator(c *Ctx, d *c17Dump) {
 	}
 	c17CmpMap(c, st, "html.TextRevEntitiesMap", live, d.pairs["TextRevHtml"])
 	live = map[string]string{}
+	for k, v := range html.AttrRevEntitiesMap {
+		live[string([]byte{k})] = string(v)
+	}
+	c17CmpMap(c, st, "html.AttrRevEntitiesMap", live, d.pairs["AttrRevHtml"])
+	live = map[string]string{}
 	for k, v := range xml.EntitiesMap {
 		live[k] = string(v)
 	}
@@ -352,6 +365,11 @@ func c17Translator(c *Ctx, d *c17Dump) {
 		live[string([]byte{k})] = string(v)
 	}
 	c17CmpMap(c, st, "xml.TextRevEntitiesMap", live, d.pairs["TextRevXml"])
+	live = map[string]string{}
+	for k, v := range xml.AttrRevEntitiesMap {
+		live[string([]byte{k})] = string(v)
+	}
+	c17CmpMap(c, st, "xml.AttrRevEntitiesMap", live, d.pairs["AttrRevXml"])
 	live = map[string]string{}
 	for k, v := range css.ShortenColorHex {
 		live[k] = string(v)
@@ -539,9 +557,13 @@ func c17Behaviour(c *Ctx, d *c17Dump, x *c17M) {
 		cand[n] = true
 	}
 	for _, n := range c17Sorted(cand) {
-		in := "a{margin:0" + n + "}"
+		// (a zero angle only loses its unit inside the functions that accept a bare 0 for an <angle>: css.go zeroAngleFuncs)
+		in, bare := "a{margin:0"+n+"}", "a{margin:0}"
+		if d.class["angleUnits"][n] {
+			in, bare = "a{transform:rotate(0"+n+")}", "a{transform:rotate(0)}"
+		}
 		if out, ok := run("text/css", in); ok {
-			got := out == "a{margin:0}"
+			got := out == bare
 			st.Count("optionalZeroDimension "+n, got)
 			st.Tag("zeroUnit=" + strconv.FormatBool(zu[n]))
 			if got != zu[n] {
@@ -587,6 +609,16 @@ var c17Suffixes = []string{"y", " z", "=", ";", "#", "", "1", "&", "&amp;", "lt;
 
 // c17EntityCase minifies `<p>x REF SUFFIX` (text) or `<a title="x REF SUFFIX">` (attribute) and judges by both oracles.
 func c17EntityCase(c *Ctx, st *h.Stage, x *c17M, ref, suf string, attr bool, what string) (changed bool) {
+	return c17EntityCaseX(c, st, x, ref, suf, attr, what, false)
+}
+
+// exact: compare the decoded text byte for byte (no white-space normalisation) — used for the reverse maps, whose
+// point is that a decoded CR / NUL / `<` stays exactly that.
+func c17EntityCaseX(c *Ctx, st *h.Stage, x *c17M, ref, suf string, attr bool, what string, exact bool) (changed bool) {
+	ws := c17Ws
+	if exact {
+		ws = func(s string) string { return s }
+	}
 	var in string
 	if attr {
 		if strings.ContainsAny(suf, "<>") {
@@ -615,7 +647,7 @@ func c17EntityCase(c *Ctx, st *h.Stage, x *c17M, ref, suf string, attr bool, wha
 	} else {
 		ti, _ := c17Text(in)
 		to, _ := c17Text(out)
-		if c17Ws(ti) != c17Ws(to) {
+		if ws(ti) != ws(to) {
 			c.R.Add(h.Finding{Stage: st.Name, Kind: "fail", What: what + ": decodes to different text after minification",
 				Input: strconv.Quote(in), Impl: strconv.Quote(out), Model: fmt.Sprintf("golang.org/x/net/html: text before %q, after %q", ti, to)})
 		}
@@ -623,7 +655,7 @@ func c17EntityCase(c *Ctx, st *h.Stage, x *c17M, ref, suf string, attr bool, wha
 		if !strings.Contains(suf, "<") {
 			ri := strings.TrimSuffix(strings.TrimPrefix(in, "<p>"), "</p>")
 			ro := strings.TrimSuffix(strings.TrimPrefix(out, "<p>"), "</p>")
-			if c17Ws(stdhtml.UnescapeString(ri)) != c17Ws(stdhtml.UnescapeString(ro)) {
+			if ws(stdhtml.UnescapeString(ri)) != ws(stdhtml.UnescapeString(ro)) {
 				c.R.Add(h.Finding{Stage: st.Name, Kind: "fail", What: what + ": decodes to different text after minification",
 					Input: strconv.Quote(in), Impl: strconv.Quote(out), Model: "html.UnescapeString of the text before and after differ"})
 			}
@@ -677,17 +709,30 @@ func c17Entities(c *Ctx, d *c17Dump, x *c17M) {
 			c.R.Add(h.Finding{Stage: st.Name, Kind: "crash", What: "html.Minify: " + crash, Input: strconv.Quote(ref)})
 		}
 	}
-	// TextRevEntitiesMap: every way of writing the character
-	for b, esc := range html.TextRevEntitiesMap {
-		if stdhtml.UnescapeString(string(esc)) != string([]byte{b}) {
-			c.R.Add(h.Finding{Stage: st.Name, Kind: "fail", What: fmt.Sprintf("html.TextRevEntitiesMap[%q]: escape %q does not decode to the character", b, esc), Input: strconv.Quote("<p>&#" + strconv.Itoa(int(b)) + ";</p>")})
+	// TextRevEntitiesMap / AttrRevEntitiesMap: every way of writing a reference to the byte, compared exactly
+	for _, tb := range []struct {
+		name string
+		m    map[byte][]byte
+		attr bool
+	}{{"html.TextRevEntitiesMap", html.TextRevEntitiesMap, false}, {"html.AttrRevEntitiesMap", html.AttrRevEntitiesMap, true}} {
+		keys := []int{}
+		for b := range tb.m {
+			keys = append(keys, int(b))
 		}
-		for _, ref := range []string{"&#" + strconv.Itoa(int(b)) + ";", fmt.Sprintf("&#x%x;", b), fmt.Sprintf("&#x%X;", b), fmt.Sprintf("&#%04d;", b)} {
-			for _, suf := range c17Suffixes {
-				for _, attr := range []bool{false, true} {
-					ch := c17EntityCase(c, st, x, ref, suf, attr, fmt.Sprintf("html.TextRevEntitiesMap[%q]", b))
-					st.Count(fmt.Sprintf("%s%q attr=%v", ref, suf, attr), ch)
-					st.Tag("textrev")
+		sort.Ints(keys)
+		for _, bi := range keys {
+			b := byte(bi)
+			esc := tb.m[b]
+			num := "&#" + strconv.Itoa(bi) + ";"
+			if stdhtml.UnescapeString(string(esc)) != stdhtml.UnescapeString(num) {
+				c.R.Add(h.Finding{Stage: st.Name, Kind: "fail", What: fmt.Sprintf("%s[%q]: decodes to different text after minification", tb.name, b),
+					Input: strconv.Quote("<p>" + num + "</p>"), Impl: strconv.Quote(string(esc)), Model: "html.UnescapeString of the escape and of a numeric reference to the byte differ"})
+			}
+			for _, ref := range []string{num, fmt.Sprintf("&#x%x;", b), fmt.Sprintf("&#x%X;", b), fmt.Sprintf("&#%04d;", b)} {
+				for _, suf := range c17Suffixes {
+					ch := c17EntityCaseX(c, st, x, ref, suf, tb.attr, fmt.Sprintf("%s[%q]", tb.name, b), true)
+					st.Count(fmt.Sprintf("%s%q attr=%v", ref, suf, tb.attr), ch)
+					st.Tag("rev")
 				}
 			}
 		}
@@ -711,10 +756,18 @@ func c17XMLEntities(c *Ctx, d *c17Dump, x *c17M) {
 				Input: strconv.Quote("<a>&" + k + ";</a>"), Impl: strconv.Quote(string(v))})
 		}
 	}
-	for b, esc := range xml.TextRevEntitiesMap {
-		got, ok := c17XML("<a>" + string(esc) + "</a>")
-		if !ok || got != "<a>|T:"+string([]byte{b})+"|" {
-			c.R.Add(h.Finding{Stage: st.Name, Kind: "fail", What: fmt.Sprintf("xml.TextRevEntitiesMap[%q]: escape %q is not a reference to the character (encoding/xml)", b, esc), Input: strconv.Quote("<a>" + string(esc) + "</a>")})
+	for _, tb := range []struct {
+		name string
+		m    map[byte][]byte
+	}{{"xml.TextRevEntitiesMap", xml.TextRevEntitiesMap}, {"xml.AttrRevEntitiesMap", xml.AttrRevEntitiesMap}} {
+		for b, esc := range tb.m {
+			got, ok := c17XML("<a>" + string(esc) + "</a>")
+			want, wok := c17XML("<a>&#" + strconv.Itoa(int(b)) + ";</a>")
+			if !ok || !wok || got != want {
+				c.R.Add(h.Finding{Stage: st.Name, Kind: "fail", What: fmt.Sprintf("%s[%q]: escape %q is not a reference to the character (encoding/xml)", tb.name, b, esc), Input: strconv.Quote("<a>&#" + strconv.Itoa(int(b)) + ";</a>")})
+			}
+			refs["&#"+strconv.Itoa(int(b))+";"] = true
+			refs[fmt.Sprintf("&#x%x;", b)] = true
 		}
 	}
 	for _, ref := range c17Sorted(refs) {
@@ -751,8 +804,8 @@ func c17XMLEntities(c *Ctx, d *c17Dump, x *c17M) {
 						c.R.Add(h.Finding{Stage: st.Name, Kind: "fail", What: mt + ": minifier returns an error on a well-formed document", Input: strconv.Quote(in), Impl: err.Error()})
 						continue
 					}
-					a, aok := c17XML(in)
-					b, bok := c17XML(out)
+					a, aok := c17XMLw(in, true)
+					b, bok := c17XMLw(out, true)
 					if !aok {
 						continue // not well-formed input (e.g. `&amp;#` is fine, but be safe)
 					}
@@ -1014,7 +1067,7 @@ func c17Search(c *Ctx, d *c17Dump, x *c17M) {
 		return out
 	}
 	isKnown := func(table, key string) bool {
-		return (table == "blockTags" && key == "marquee") || (table == "urlAttrs" && key == "xmlns")
+		return table == "urlAttrs" && key == "xmlns"
 	}
 	for _, t := range c17Bads {
 		for _, key := range d.bad[t] {
@@ -1032,19 +1085,19 @@ func c17Search(c *Ctx, d *c17Dump, x *c17M) {
 						c17EntityCase(c, st, x, "&"+key+";", suf, attr, "html.EntitiesMap["+key+"]")
 					}
 				}
-			case "textRevHtml", "textRevHtmlCovers":
+			case "textRevHtml", "attrRevHtml", "textRevHtmlCovers":
 				refs := []string{"&" + key + ";"}
-				if t == "textRevHtml" && len(key) == 1 {
+				if t != "textRevHtmlCovers" && len(key) == 1 {
 					refs = []string{"&#" + strconv.Itoa(int(key[0])) + ";", fmt.Sprintf("&#x%x;", key[0])}
 				}
 				for _, ref := range refs {
 					for _, suf := range c17Suffixes {
-						c17EntityCase(c, st, x, ref, suf, false, "html.TextRevEntitiesMap / reference "+ref)
+						c17EntityCaseX(c, st, x, ref, suf, t == "attrRevHtml", "html reverse map ("+t+") / reference "+ref, true)
 					}
 				}
-			case "entitiesXml", "textRevXml":
+			case "entitiesXml", "textRevXml", "attrRevXml":
 				ref := "&" + key + ";"
-				if t == "textRevXml" && len(key) == 1 {
+				if t != "entitiesXml" && len(key) == 1 {
 					ref = "&#" + strconv.Itoa(int(key[0])) + ";"
 				}
 				for _, in := range []string{"<a>x" + ref + "y</a>", "<a b=\"x" + ref + "y\"/>"} {
@@ -1120,7 +1173,7 @@ func c17Search(c *Ctx, d *c17Dump, x *c17M) {
 					fail("jsMimetypes["+key+"]: the script type is dropped (= classic JavaScript) but `"+key+"` is not a JavaScript MIME type", in, out, "")
 				}
 			case "zeroUnits":
-				for _, in := range []string{"a{margin:0" + key + "}", "a{transition-delay:0" + key + "}", "a{width:0" + key + "}"} {
+				for _, in := range []string{"a{margin:0" + key + "}", "a{transition-delay:0" + key + "}", "a{width:0" + key + "}", "a{transform:rotate(0" + key + ")}"} {
 					out := run("text/css", in)
 					if !strings.Contains(out, "0"+key) && !d.class["lengthUnits"][key] && !d.class["angleUnits"][key] {
 						fail("optionalZeroDimension["+key+"]: the unit is dropped from a zero value but `"+key+"` is neither a length nor an angle unit", in, out, "")
@@ -1169,6 +1222,11 @@ func runC17(c *Ctx) error {
 	for _, k := range h.Known("C17") {
 		if k.Status != "open" {
 			// fixed entries: regression corpus — the row must stay away
+			if k.ReplayStr("input") == "<p>a <marquee>b</marquee> c</p>" {
+				if still, obs := c17KnownMarquee(x); still {
+					c.R.Add(h.Finding{Stage: "known", Kind: "fail", What: "regression of fixed finding " + k.ID + ": white space next to `marquee` (inline-block) is removed again", Input: strconv.Quote(k.ReplayStr("input")), Impl: strconv.Quote(obs)})
+				}
+			}
 			if k.ReplayStr("entry") == "Lightslateblue" {
 				out, _, _ := x.run("text/css", "a{color:lightslateblue}")
 				if out != "a{color:lightslateblue}" {
@@ -1178,9 +1236,6 @@ func runC17(c *Ctx) error {
 			continue
 		}
 		switch k.Trigger {
-		case "c17.blockTag.marquee":
-			still, obs := c17KnownMarquee(x)
-			c.R.AddKnown(k.ID, still, k.What, obs)
 		case "c17.urlAttr.xmlns":
 			still, obs := c17KnownXmlns()
 			c.R.AddKnown(k.ID, still, k.What, obs)
